@@ -1,35 +1,43 @@
 package simunix
 
 import (
+	"crypto/sha1"
 	"encoding/binary"
+	"fmt"
 	"sort"
+	"strconv"
+	"strings"
 	"syscall"
 
 	realunix "golang.org/x/sys/unix"
 )
 
 const (
-	O_RDONLY     = realunix.O_RDONLY
-	O_WRONLY     = realunix.O_WRONLY
-	O_RDWR       = realunix.O_RDWR
-	O_ACCMODE    = realunix.O_ACCMODE
-	O_CREAT      = realunix.O_CREAT
-	O_EXCL       = realunix.O_EXCL
-	O_TRUNC      = realunix.O_TRUNC
-	O_APPEND     = realunix.O_APPEND
-	O_DIRECTORY  = realunix.O_DIRECTORY
-	O_SYNC       = realunix.O_SYNC
-	O_DSYNC      = realunix.O_DSYNC
-	O_CLOEXEC    = realunix.O_CLOEXEC
-	O_NOFOLLOW   = realunix.O_NOFOLLOW
-	AT_FDCWD     = realunix.AT_FDCWD
-	AT_REMOVEDIR = realunix.AT_REMOVEDIR
-	S_IFMT       = realunix.S_IFMT
-	S_IFREG      = realunix.S_IFREG
-	S_IFDIR      = realunix.S_IFDIR
-	SEEK_SET     = 0
-	SEEK_CUR     = 1
-	SEEK_END     = 2
+	O_RDONLY            = realunix.O_RDONLY
+	O_WRONLY            = realunix.O_WRONLY
+	O_RDWR              = realunix.O_RDWR
+	O_ACCMODE           = realunix.O_ACCMODE
+	O_CREAT             = realunix.O_CREAT
+	O_EXCL              = realunix.O_EXCL
+	O_TMPFILE           = realunix.O_TMPFILE
+	O_CLOEXEC           = realunix.O_CLOEXEC
+	O_NOFOLLOW          = realunix.O_NOFOLLOW
+	O_DSYNC             = realunix.O_DSYNC
+	AT_SYMLINK_FOLLOW   = realunix.AT_SYMLINK_FOLLOW
+	AT_SYMLINK_NOFOLLOW = realunix.AT_SYMLINK_NOFOLLOW
+	AT_EMPTY_PATH       = realunix.AT_EMPTY_PATH
+	O_TRUNC             = realunix.O_TRUNC
+	O_APPEND            = realunix.O_APPEND
+	O_DIRECTORY         = realunix.O_DIRECTORY
+	O_SYNC              = realunix.O_SYNC
+	AT_FDCWD            = realunix.AT_FDCWD
+	AT_REMOVEDIR        = realunix.AT_REMOVEDIR
+	S_IFMT              = realunix.S_IFMT
+	S_IFREG             = realunix.S_IFREG
+	S_IFDIR             = realunix.S_IFDIR
+	SEEK_SET            = 0
+	SEEK_CUR            = 1
+	SEEK_END            = 2
 
 	EEXIST    = syscall.EEXIST
 	ENOENT    = syscall.ENOENT
@@ -245,6 +253,9 @@ func Seek(fd int, offset int64, whence int) (int64, error) {
 		return -1, EBADF
 	}
 	in := k.Inodes[d.Ino]
+	if in.Dir && whence == SEEK_SET && offset == 0 {
+		d.DirPos, d.DirLast = 0, "" // rewinddir
+	}
 	switch whence {
 	case SEEK_SET:
 		d.Off = offset
@@ -342,6 +353,23 @@ func Fstat(fd int, st *Stat_t) error {
 	*st = Stat_t{}
 	st.Ino = uint64(in.Ino)
 	st.Nlink = uint64(in.Nlink)
+	sig := ""
+	if in.Dir {
+		var es []string
+		for n, c := range in.Entries {
+			es = append(es, fmt.Sprintf("%s=%d", n, c))
+		}
+		sort.Strings(es)
+		sig = strings.Join(es, ",")
+	} else {
+		sig = fmt.Sprintf("%d:%x", len(in.Data), sha1.Sum(in.Data))
+	}
+	if sig != in.mtimeSig {
+		in.mtimeSig = sig
+		in.MtimeGen++
+	}
+	st.Mtim.Sec = 1000000 + in.MtimeGen
+	st.Ctim.Sec = st.Mtim.Sec
 	if in.Dir {
 		st.Mode = S_IFDIR | 0755
 		st.Size = 4096
@@ -518,14 +546,27 @@ func Linkat(olddirfd int, oldpath string, newdirfd int, newpath string, flags in
 		k.leave(Call{Name: "linkat", Args: []any{olddirfd, oldpath, newdirfd, newpath}, Err: f.Err})
 		return f.Err
 	}
-	sdir, sname, e := k.resolve(olddirfd, oldpath)
+	var src *Inode
+	var sdir *Inode
+	var sname string
+	var e Errno
+	if strings.HasPrefix(oldpath, "/proc/self/fd/") && flags&AT_SYMLINK_FOLLOW != 0 {
+		// the documented way to give an O_TMPFILE file a name
+		n, perr := strconv.Atoi(strings.TrimPrefix(oldpath, "/proc/self/fd/"))
+		if d, ok := k.Fds[n]; perr == nil && ok && !k.Inodes[d.Ino].Dir {
+			src = k.Inodes[d.Ino]
+		} else {
+			e = ENOENT
+		}
+	} else {
+		sdir, sname, e = k.resolve(olddirfd, oldpath)
+	}
 	var ddir *Inode
 	var dname string
 	if e == 0 {
 		ddir, dname, e = k.resolve(newdirfd, newpath)
 	}
-	var src *Inode
-	if e == 0 {
+	if e == 0 && src == nil {
 		ino, ok := sdir.Entries[sname]
 		if !ok {
 			e = ENOENT
